@@ -75,6 +75,32 @@ type Spec struct {
 	Hash                    string
 	// xaes
 	Salt int
+	// env: Variant/ID/Key describe the key-encryption AEAD (KEK); DEK names the template
+	DEK string
+	KEK *Spec
+}
+
+// DEKInfo describes a data-key template of the KMS envelope AEAD.
+type DEKInfo struct {
+	Scheme string
+	KeyLen int
+	Tag    byte // proto tag of the key_value field in the serialised DEK
+	Tmpl   func() *tinkpb.KeyTemplate
+}
+
+var DEKs = map[string]DEKInfo{
+	"gcm16":   {"gcm", 16, 0x1a, aead.AES128GCMKeyTemplate},
+	"gcm32":   {"gcm", 32, 0x1a, aead.AES256GCMKeyTemplate},
+	"chacha":  {"chacha", 32, 0x12, aead.ChaCha20Poly1305KeyTemplate},
+	"xchacha": {"xchacha", 32, 0x1a, aead.XChaCha20Poly1305KeyTemplate},
+	"siv16":   {"siv", 16, 0x1a, aead.AES128GCMSIVKeyTemplate},
+	"siv32":   {"siv", 32, 0x1a, aead.AES256GCMSIVKeyTemplate},
+}
+var DEKNames = []string{"gcm16", "gcm32", "chacha", "xchacha", "siv16", "siv32"}
+
+// DEKSpec is the (RAW) key description of a data key with the given key bytes.
+func (s *Spec) DEKSpec(key []byte) *Spec {
+	return &Spec{Scheme: DEKs[s.DEK].Scheme, Route: "H", Variant: "R", Params: "-", Key: key}
 }
 
 func ParseSpec(f []string) (*Spec, error) {
@@ -98,6 +124,20 @@ func ParseSpec(f []string) (*Spec, error) {
 		s.AESLen, _ = strconv.Atoi(p[3])
 	case "xaes":
 		s.Salt, _ = strconv.Atoi(s.Params)
+	case "env":
+		p := strings.SplitN(s.Params, "~", 4)
+		if len(p) != 4 {
+			return nil, fmt.Errorf("env params")
+		}
+		if _, ok := DEKs[p[0]]; !ok {
+			return nil, fmt.Errorf("dek")
+		}
+		s.DEK = p[0]
+		k, err := ParseSpec([]string{p[1], p[2], f[2], f[3], p[3], f[5]})
+		if err != nil {
+			return nil, err
+		}
+		s.KEK = k
 	}
 	return s, nil
 }
@@ -129,6 +169,9 @@ func (s *Spec) IVLen() int {
 		return s.IVSize
 	case "xaes":
 		return s.Salt + 12
+	case "env":
+		d := DEKs[s.DEK]
+		return d.KeyLen + s.KEK.IVLen() + s.DEKSpec(nil).IVLen()
 	}
 	return 0
 }
@@ -298,6 +341,13 @@ func (s *Spec) TypedKey() (key.Key, error) {
 
 // Build constructs the tink.AEAD through the route the spec names.
 func (s *Spec) Build() (tink.AEAD, error) {
+	if s.Scheme == "env" {
+		kek, err := s.KEK.Build()
+		if err != nil {
+			return nil, err
+		}
+		return aead.NewKMSEnvelopeAEAD2(DEKs[s.DEK].Tmpl(), kek), nil
+	}
 	switch s.Route {
 	case "H":
 		k, err := s.ProtoKey(tinkpb.KeyStatusType_ENABLED)
@@ -403,6 +453,18 @@ func (s *Spec) Independent(iv, pt, ad []byte) (ct []byte, ok bool) {
 	if len(iv) != s.IVLen() {
 		return nil, false
 	}
+	if s.Scheme == "env" {
+		d := DEKs[s.DEK]
+		dk, kiv, div := iv[:d.KeyLen], iv[d.KeyLen:d.KeyLen+s.KEK.IVLen()], iv[d.KeyLen+s.KEK.IVLen():]
+		dekProto := append([]byte{d.Tag, byte(d.KeyLen)}, dk...)
+		enc, ok1 := s.KEK.Independent(kiv, dekProto, nil)
+		payload, ok2 := s.DEKSpec(dk).Independent(div, pt, ad)
+		if !ok1 || !ok2 {
+			return nil, false
+		}
+		out := binary.BigEndian.AppendUint32(nil, uint32(len(enc)))
+		return append(append(out, enc...), payload...), true
+	}
 	out := append(append([]byte{}, s.Prefix()...), iv...)
 	switch s.Scheme {
 	case "gcm":
@@ -479,8 +541,22 @@ var hashes = []string{"sha1", "sha224", "sha256", "sha384", "sha512"}
 // Schemes enabled in the generator.
 var Schemes = []string{"gcm", "chacha", "xchacha", "etm", "siv", "xaes"}
 
-// RandSpec draws a valid key description.
+// RandSpec draws a valid key description (envelope with probability envPct %).
 func RandSpec(r *hx.Rng) *Spec {
+	if EnvPct > 0 && r.Chance(EnvPct) {
+		k := randPlain(r)
+		dek := hx.PickS(r, DEKNames)
+		e := &Spec{Scheme: "env", Route: "E", Variant: k.Variant, ID: k.ID, Key: k.Key, DEK: dek, KEK: k,
+			Params: dek + "~" + k.Scheme + "~" + k.Route + "~" + k.Params}
+		return e
+	}
+	return randPlain(r)
+}
+
+// EnvPct is the share of KMS-envelope cases.
+var EnvPct = 12
+
+func randPlain(r *hx.Rng) *Spec {
 	s := &Spec{Scheme: hx.PickS(r, Schemes), Params: "-"}
 	s.Route = hx.PickS(r, []string{"H", "H", "K", "K", "S"})
 	if s.Scheme == "xaes" && s.Route == "S" {
